@@ -12,15 +12,21 @@ LEAN_TARGETS = ["Asynkit.Props.C10", "Asynkit.Lemmas.GenEqSched", "Asynkit.Lemma
 PROPS_FILES = ["Asynkit/Props/C10.lean", "Asynkit/Lemmas/GenEqSched.lean", "Asynkit/Lemmas/GenEqPosPQ.lean", "Asynkit/Lemmas/GenEqPQ.lean"]
 DRIVERS = ["Sched"]
 TRUSTED = [
-    "Lean 4.33 kernel; axioms ⊆ {propext, Classical.choice, Quot.sound} (audited per theorem each run)",
-    "hand-written models Asynkit/Model/{Sched,PosPQ,PQ,Heap}.lean, tied to src/asynkit/experimental/priority.py "
-    "(PosPriorityQueue, PrioritySchedulingMixin, PriorityTask/PriorityLock effective priorities) and "
-    "src/asynkit/scheduling.py by the differential correspondence of this run (lean/Drivers/Sched.lean)",
-    "CPython heapq meets its documented contract (HeapLib.Lawful hypothesis of the theorems; the executable "
-    "model transcribes heapq's sift loops)",
-    "modelled, not verified: asyncio call_soon / Task.__step / Future.set_result / _run_once as in C08; "
-    "asyncio.Lock base class fields used by PriorityLock",
-    "priorities are exact rationals in the model; the harness only uses values exactly representable as floats",
+    'Lean 4.33 kernel; axioms ⊆ {propext, Classical.choice, Quot.sound} (audited per theorem each run)',
+    'translated, not trusted: the ready queue (every method of PosPriorityQueue and of tools.PriorityQueue: '
+    'translator/pospq2lean.py, pq2lean.py -> Gen/PosPQ.lean, Gen/PQ.lean; Lemmas/GenEqPosPQ.lean 41, GenEqPQ.lean'
+    " 29 theorems) and PrioritySchedulingMixin's queue_* / call_pos / get_priority / task_reschedule with the "
+    'scheduling helpers (translator/sched2lean.py -> Gen/SchedOps.lean; Lemmas/GenEqSched.lean, 18 theorems) are '
+    're-translated from the source on every run and proved equal to Model/{PosPQ,PQ,Sched}',
+    'hand-written and tied only by the differential correspondence of this run (lean/Drivers/Sched.lean): '
+    "asyncio's stepping and the program interpreter of Asynkit/Model/Sched.lean, and the evaluation of "
+    "PriorityTask/PriorityLock effective priorities at queueing time (the lock layer itself is C11-C13's "
+    'translation unit)',
+    'CPython heapq meets its documented contract (HeapLib.Lawful hypothesis of the theorems; the executable model'
+    " transcribes heapq's sift loops)",
+    'modelled, not verified: asyncio call_soon / Task.__step / Future.set_result / _run_once as in C08; '
+    'asyncio.Lock base class fields used by PriorityLock',
+    'priorities are exact rationals in the model; the harness only uses values exactly representable as floats',
 ]
 ASSUMPTIONS = [
     "nested PriorityLock sections take the locks in increasing index order (no deadlock; the wait-for graph is "
@@ -302,7 +308,7 @@ def run(ctx):
         ctx.sample(p)
     for i in range(0, len(progs), 1500):
         explore(ctx, progs[i:i + 1500])
-    progs = [S.gen_contention(rng) for _ in range(n_cont)]
+    progs = [S.gen_contention(rng) for _ in range(n_cont)] + [S.gen_bound(rng, "c10") for _ in range(n_cont // 8)]
     ctx.sample(progs[0])
     explore(ctx, progs, label="contention: ")
     progs = [S.gen_chain(rng) for _ in range(n_chain)] + [S.gen_inflight(rng) for _ in range(n_chain // 7)]
